@@ -72,22 +72,22 @@ type StageSpec struct {
 // Rule modifies the behaviour of matching jobs.
 type Rule struct {
 	// Match: all non-empty fields must match.
-	Stage   string `json:"stage,omitempty"`
-	Phase   string `json:"phase,omitempty"`   // split|main|join
-	Job     string `json:"job,omitempty"`     // logical job id (canonical relative metadata path), exact
-	Attempt int    `json:"attempt,omitempty"` // 1-based; 0 = any
+	Stage     string `json:"stage,omitempty"`
+	Phase     string `json:"phase,omitempty"`      // split|main|join
+	Job       string `json:"job,omitempty"`        // logical job id (canonical relative metadata path), exact
+	Attempt   int    `json:"attempt,omitempty"`    // 1-based; 0 = any
 	JobPrefix string `json:"job_prefix,omitempty"` // logical job id starts with this
 	// Effects.
-	DelayBeforeMs int    `json:"delay_before_ms,omitempty"`
-	DelayAfterMs  int    `json:"delay_after_ms,omitempty"`
-	Fail          string `json:"fail,omitempty"`     // see probe
-	KillMrp       string `json:"kill_mrp,omitempty"` // KILL|TERM at: "start" or "outs"
-	KillMrpAt     string `json:"kill_mrp_at,omitempty"`
+	DelayBeforeMs int     `json:"delay_before_ms,omitempty"`
+	DelayAfterMs  int     `json:"delay_after_ms,omitempty"`
+	Fail          string  `json:"fail,omitempty"`     // see probe
+	KillMrp       string  `json:"kill_mrp,omitempty"` // KILL|TERM at: "start" or "outs"
+	KillMrpAt     string  `json:"kill_mrp_at,omitempty"`
 	Threads       float64 `json:"threads,omitempty"` // split: request for chunks
 	MemGB         float64 `json:"mem_gb,omitempty"`
-	Chunks        int    `json:"chunks,omitempty"` // split: force chunk count (+1; 0 = hash)
-	EmptyPct      int    `json:"empty_pct,omitempty"` // chance that a collection-typed output (top nesting level) is empty
-	Bools         string `json:"bools,omitempty"`  // "true" / "false": every bool output leaf of the job has this value
+	Chunks        int     `json:"chunks,omitempty"`    // split: force chunk count (+1; 0 = hash)
+	EmptyPct      int     `json:"empty_pct,omitempty"` // chance that a collection-typed output (top nesting level) is empty
+	Bools         string  `json:"bools,omitempty"`     // "true" / "false": every bool output leaf of the job has this value
 }
 
 type Spec struct {
